@@ -11,14 +11,23 @@ ACTIONS = ("TRun", "TCall", "TCallback", "TReturned", "TRunEnd")
 
 def run(chk, replay=None):
     thorough = chk.tier == "thorough"
-    chk.cov["checker_cmd"] = "tlc MC_Loop; tlc MC_Session; tlc Trace_C12 (TRACE=out/C12/trace.ndjson)"
-    chk.cov["trusted_base"] = ["TLC", "MPI shim (threads as ranks)", "relative-error class of the combined result computed by the driver with the library's "
+    chk.cov["checker_cmd"] = "tlc MC_Loop; apalache-mc check --init=IndInv --length=1 --inv=IndInv Loop_apa.tla; tlc MC_Session; tlc Trace_C12 (TRACE=out/C12/trace.ndjson)"
+    chk.cov["trusted_base"] = ["TLC", "Apalache 0.58 + Z3 (inductive invariant of the loop protocol)", "MPI shim (threads as ranks)", "relative-error class of the combined result computed by the driver with the library's "
                                "own accumulate<weighted_with_variance> (C13) in the same arithmetic as the callback"]
     chk.cov["rule"] = ("one case per run: user callbacks returning false at every position 0..6 (fresh and resumed checkpoints, serial and 2-3 simulated ranks) and "
                        "the built-in callback in all four modes with targets {0, 0.1, 0.001, 1, 0.02} on integrands {ordinary, identically zero, constant, "
                        "zero mean, non-finite everywhere, negative}, PLAIN / VEGAS / multi-channel and their MPI forms; every integrand call, callback and "
                        "return is an event; non-trivial = run that stops early or uses the built-in callback on a degenerate integrand")
     chk.model("MC_Loop", what="MC_Loop: one callback per iteration after exactly the rank's share of calls, nothing after a false return")
+    # the same protocol for one rank with any plan, any calls, any answers of the callback: an inductive invariant discharged by Apalache / Z3
+    import apacommon
+    done = apacommon.discharge(chk, "Loop_apa", [
+        (["--cinit=CInit", "--length=0", "--inv=IndInv"], "ok", "Init => IndInv"),
+        (["--cinit=CInit", "--init=IndInv", "--length=1", "--inv=IndInv"], "ok", "IndInv /\\ Next => IndInv' (any plan length, calls per iteration, starting checkpoint, callback answers)"),
+        (["--cinit=CInit", "--init=IndInv", "--length=0", "--inv=Protocol"], "ok", "IndInv => Protocol (one callback per completed iteration with exactly the results so far; stop iff told so or finished)"),
+        (["--cinit=CInitEager", "--length=4", "--inv=Protocol"], "error", "returning the last result without its callback: Protocol violated")])
+    chk.cov["obligations"] = len(done)
+    chk.cov["discharged"] = len(done)
     # several integrations at the same time on disjoint communicators: every group stops on its own results
     chk.model("MC_MpiGroups", "MC_MpiGroups_local", what="MC_MpiGroups (groups of 2 and 3 ranks, needs 2 and 4): Independent, InStep, PROPERTY Termination")
     chk.model("MC_MpiGroups", "MC_MpiGroups_local3", what="MC_MpiGroups (three groups): Independent, InStep, PROPERTY Termination")
